@@ -84,12 +84,12 @@ Proof.
   assert (E1 : ((seq =? 255) || (sm_nseq m <=? seq)) = false).
   { apply orb_false_iff. split; [apply Z.eqb_neq; lia|apply Z.leb_gt; lia]. }
   rewrite E1. assert (E2 : (seq <? 0) = false) by (apply Z.ltb_ge; lia). rewrite E2.
-  assert (E3 : (0 <=? p) = true) by (apply Z.leb_le; lia). rewrite E3.
+  assert (E3 : ((0 <=? p) && (p <? sm_len m)) = true) by (apply andb_true_intro; split; [apply Z.leb_le|apply Z.ltb_lt]; lia). rewrite E3.
   rewrite (walk_stays 256 dir (entry m seq) p) by (apply pattern_not_marker; [assumption|assumption|auto]).
   assert (E4 : (xxo m p <? sm_npat m) = true) by (apply Z.ltb_lt; assumption). rewrite E4.
   assert (E5 : (sm_marker m && (xxo m p =? 255)) = false) by (apply pattern_not_marker; [assumption|assumption|auto]).
-  cbn [andb]. rewrite E5.
-  assert (E6 : (p <? sm_len m) = true) by (apply Z.ltb_lt; lia). rewrite E6.
+  assert (E6 : (sm_len m <=? p) = false) by (apply Z.leb_gt; lia). rewrite E6.
+  cbn [andb orb]. rewrite E5. cbn [orb].
   unfold target.
   destruct (zgd (sm_scan_ord m) seq <? p); cbn [pos ord row frame repos sq loopc fl]; repeat split; reflexivity.
 Qed.
@@ -291,13 +291,8 @@ Proof.
   { unfold set_position. cbn [Z.eqb]. pose proof (ok_nseq m OK) as Hn.
     assert (E1 : ((sq s =? 255) || (sm_nseq m <=? sq s)) = false) by (apply orb_false_iff; split; [apply Z.eqb_neq|apply Z.leb_gt]; lia).
     rewrite E1. assert (E2 : (sq s <? 0) = false) by (apply Z.ltb_ge; lia). rewrite E2.
-    assert (E3 : (0 <=? sm_len m) = true) by (apply Z.leb_le; lia). rewrite E3.
-    (* the forward walk never decreases the index *)
-    assert (W : forall f p, sm_len m <= p -> sm_len m <= walk m f 1 (entry m (sq s)) p).
-    { induction f as [|f IH]; intros p Hp2; cbn [walk]; [exact Hp2|]. destruct (sm_marker m && (xxo m p =? 254)); [|exact Hp2]. cbn. apply IH. lia. }
-    pose proof (W 256%nat (sm_len m) (Z.le_refl _)) as Hw. set (p' := walk m 256 1 (entry m (sq s)) (sm_len m)) in *.
-    assert (E6 : (p' <? sm_len m) = false) by (apply Z.ltb_ge; exact Hw). rewrite E6.
-    destruct (xxo m p' <? sm_npat m); cbn [andb]; repeat match goal with |- context [if ?b then _ else _] => destruct b end; cbn; auto. }
+    assert (E3 : ((0 <=? sm_len m) && (sm_len m <? sm_len m)) = false) by (rewrite Z.ltb_irrefl; apply andb_false_r). rewrite E3.
+    cbn [andb]. rewrite Z.leb_refl. cbn [orb pos ord row frame]. auto. }
   cbv zeta in P. destruct P as (P1 & P2 & P3 & P4). repeat split; try assumption; try (rewrite <- Hpo; assumption).
   unfold ret_pos. rewrite P1, Hpo. destruct (Z.ltb_spec (sm_len m - 1) 0); [lia|reflexivity].
 Qed.
@@ -336,7 +331,7 @@ Proof.
   { unfold set_position. cbn [Z.eqb Z.leb Z.compare andb].
     assert (E1 : ((sq s =? 255) || (sm_nseq m <=? sq s)) = false) by (apply orb_false_iff; split; [apply Z.eqb_neq|apply Z.leb_gt]; lia).
     rewrite E1. assert (E2 : (sq s <? 0) = false) by (apply Z.ltb_ge; lia). rewrite E2.
-    assert (E3 : (-1 <? sm_len m) = true) by (apply Z.ltb_lt; pose proof (ok_len m OK); lia). rewrite E3. cbn. auto. }
+    assert (E3 : (sm_len m <=? -1) = false) by (apply Z.leb_gt; pose proof (ok_len m OK); lia). rewrite E3. cbn. auto. }
   cbv zeta in P. destruct P as (P1 & P2 & P3 & P4).
   split; [unfold ret_pos; rewrite P1; reflexivity|].
   pose proof (ok_len m OK) as Hl.
